@@ -13,6 +13,13 @@ frame, the encoded frame bytes, the information field length and the abstraction
 call.  The frame is then decoded and dispatched at a second real controller and the delivered PDUs are
 compared with the model's receiver.  send()/sendto() results (EMSGSIZE, ...) are compared as well.
 
+Limits LEARNT from the peer (families learnt-*): the link MIU is taken over by the real activate() from general
+bytes carrying a MIUX TLV (a real nfc.dep Initiator/Target on a stub frontend), connection MIUs by dispatched
+CONNECT / CC PDU bytes (listen/accept, threaded connect); MIUX values 0..7FFh at the boundaries with every
+combination of the reserved bits 11..15.  The monitor computes the TRUE limit 128 + (V & 7FFh) from the bytes and
+checks cfg['send-miu'], socket send MIUs, every frame and every UI / I payload against it; the model's learn_miu /
+learn_conn_miu are compared with what the code took over.
+
 Monitor (written from the property text, independent of the model): parse the encoded frame from its
 bytes; information field <= remote MIU; every UI payload <= link MIU and every I payload <= the MIU the
 peer announced for that connection; PDUs delivered at the receiver == PDUs collected, in order.  Frames
@@ -179,18 +186,85 @@ def canon_rx_model(line):
     return out
 
 
+# ------------------------------------------------------------------ limits announced by the peer (monitor side)
+def tlv_walk(b):
+    """(T, V) list of a TLV sequence, from the bytes (LLCP 1.3 section 4.4/4.5)"""
+    out, i = [], 0
+    while i + 2 <= len(b):
+        out.append((b[i], bytes(b[i + 2:i + 2 + b[i + 1]])))
+        i += 2 + b[i + 1]
+    return out
+
+
+def last_miux(b):
+    vs = [v[0] << 8 | v[1] for t, v in tlv_walk(b) if t == 2 and len(v) == 2]
+    return vs[-1] if vs else None
+
+
+def true_miu_of_tlvs(b):
+    """MIU = 128 + MIUX, MIUX = the low 11 bits of the TLV value; 128 if the TLV is absent"""
+    v = last_miux(b)
+    return 128 if v is None else 128 + (v & 0x7FF)
+
+
+def miux_tlv(v):
+    return b'' if v is None else bytes([2, 2, v >> 8, v & 255])
+
+
+def activate_llc(role, tlvs, agf):
+    """LogicalLinkController.activate() over a real nfc.dep MAC; the contactless frontend is a stub that plays the
+    peer's ATR (the general bytes are 'Ffm' + tlvs)"""
+    import nfc.clf
+    import nfc.dep
+    gb = b'Ffm' + tlvs
+    clf = nfc.clf.ContactlessFrontend()
+
+    def no_exchange(*a, **k):
+        raise nfc.clf.CommunicationError
+
+    clf.exchange = no_exchange
+    if role == 'I':
+        atr_res = bytes.fromhex('D50100010203040506070809' '0000000832') + gb
+        clf.sense = lambda *a, **k: nfc.clf.RemoteTarget("106A", atr_res=bytearray(atr_res))
+        mac = nfc.dep.Initiator(clf)
+        opts = {'brs': 0}
+    else:
+        atr_req = bytes.fromhex('D400' '00010203040506070809' '00000032') + gb
+        clf.listen = lambda *a, **k: nfc.clf.RemoteTarget("106A", atr_req=bytearray(atr_req),
+                                                          dep_req=bytearray.fromhex('D406000000'))
+        mac = nfc.dep.Target(clf)
+        opts = {}
+    llc = L.LogicalLinkController(agf=bool(agf), sec=False)
+    if llc.activate(mac, **opts) is not True:
+        raise RuntimeError('activate() failed for general bytes ' + gb.hex())
+    return llc
+
+
 # ------------------------------------------------------------------ script interpreter (sender side)
 class Sender(object):
     """executes a JSON-serialisable script of socket-API operations on a real controller"""
 
-    def __init__(self, miu, agf):
-        self.miu = miu
-        self.llc = L.LogicalLinkController()
-        self.llc.cfg['send-miu'] = miu
+    def __init__(self, sc):
+        agf = sc['agf']
+        self.learn = []          # (model line, expected) for the limits taken over from the peer
+        self.pending = {}        # key -> thread blocked in llc.connect()
+        if sc.get('gb'):
+            # the link MIU is LEARNT: real activate() on a real NFC-DEP MAC whose peer sent these general bytes
+            role, tlvs = sc['gb']
+            self.llc = activate_llc(role, bytes.fromhex(tlvs), agf)
+            self.miu = self.llc.cfg['send-miu']                      # what the code will use
+            self.true_miu = true_miu_of_tlvs(bytes.fromhex(tlvs))    # what the peer announced (from the bytes)
+            v = last_miux(bytes.fromhex(tlvs))
+            self.learn.append(('learn %s' % ('-' if v is None else v), str(self.miu)))
+        else:
+            self.miu = self.true_miu = sc['miu']
+            self.llc = L.LogicalLinkController()
+            self.llc.cfg['send-miu'] = self.miu
         self.llc.cfg['send-agf'] = bool(agf)
         self.socks = {}
         self.conn_miu = {}       # (dsap=peer, ssap=addr) -> MIU announced by the peer for that connection
         self.raw_used = False
+        self.conn_learnt = []    # (how, MIUX value, socket send_miu, true limit)
         self.sendlog = []        # (model line, expected result)
         self.threads = []
 
@@ -232,7 +306,7 @@ class Sender(object):
         before = a_sock(s)
         r, v = self.api(self.llc.sendto, s, msg, dest, DONTWAIT)
         exp = 'ok ' + a_sock(s) if r == 'ok' else 'err LlcpError:%d' % v
-        self.sendlog.append(('sendto %d %d %s %s' % (self.miu, dest, hexs(msg), before), exp, n, r, self.miu))
+        self.sendlog.append(('sendto %d %d %s %s' % (self.miu, dest, hexs(msg), before), exp, n, r, self.true_miu))
 
     def op_rawsend(self, key, n, dest, fill):
         s = self.socks.get(key)
@@ -277,6 +351,60 @@ class Sender(object):
         self.socks[key] = s
         self.conn_miu[(s.peer, s.addr)] = annc
 
+    def _learnt(self, s, v, how):
+        """a data link connection has just taken its send MIU from a CONNECT / CC with MIUX value v"""
+        true = 128 if v is None else 128 + (v & 0x7FF)
+        self.conn_miu[(s.peer, s.addr)] = true
+        self.learn.append(('learnconn %d %s %s' % (self.miu, '-' if v is None else v, a_sock(s)), a_sock(s)))
+        self.conn_learnt.append((how, v, s.send_miu, min(true, self.true_miu)))
+
+    def op_accept_raw(self, lkey, key, ssap, v, rw):
+        """CONNECT PDU bytes with a MIUX TLV arrive for a listening socket; accept()"""
+        ls = self.socks.get(lkey)
+        if ls is None or len(ls.recv_queue) >= ls.recv_buf:
+            return
+        wire = bytes([ls.addr << 2 | 1, ssap]) + miux_tlv(v) + (bytes([5, 1, rw]) if rw != 1 else b'')
+        self.llc.dispatch(P.decode(wire))
+        if not len(ls.recv_queue):
+            return
+        s = self.llc.accept(ls)
+        self.socks[key] = s
+        self._learnt(s, v, 'CONNECT')
+
+    def op_connect_start(self, key, addr, dest):
+        """llc.connect() in a thread; it queues CONNECT and waits for the answer"""
+        s = self.llc.socket(nfc.llcp.DATA_LINK_CONNECTION)
+        if not self._bind(s, addr):
+            return
+
+        def run():
+            try:
+                self.llc.connect(s, dest)
+            except nfc.llcp.Error:
+                pass
+
+        t = threading.Thread(target=run)
+        t.daemon = True
+        t.start()
+        for _ in range(4000):
+            if len(s.send_queue) or not t.is_alive():
+                break
+            time.sleep(0.0005)
+        self.socks[key] = s
+        self.pending[key] = (t, dest)
+
+    def op_cc(self, key, v, rw):
+        """CC PDU bytes with a MIUX TLV answer the pending connect()"""
+        if key not in self.pending:
+            return
+        t, dest = self.pending.pop(key)
+        s = self.socks[key]
+        wire = bytes([s.addr << 2 | 1, 0x80 | dest]) + miux_tlv(v) + (bytes([5, 1, rw]) if rw != 1 else b'')
+        self.llc.dispatch(P.decode(wire))
+        t.join(2)
+        if s.state.ESTABLISHED:
+            self._learnt(s, v, 'CC')
+
     def op_send(self, key, n, fill):
         s = self.socks.get(key)
         if s is None:
@@ -286,7 +414,7 @@ class Sender(object):
         r, v = self.api(self.llc.send, s, msg, DONTWAIT)
         exp = 'ok ' + a_sock(s) if r == 'ok' else 'err LlcpError:%d' % v
         self.sendlog.append(('send %s %s' % (hexs(msg), before), exp, n, r,
-                             min(self.miu, self.conn_miu.get((s.peer, s.addr), 0))))
+                             min(self.true_miu, self.conn_miu.get((s.peer, s.addr), 0))))
 
     def op_rx(self, key, k, j):
         """k in-sequence I PDUs arrive from the peer, the application reads j of them"""
@@ -362,6 +490,9 @@ class Sender(object):
         self.llc.dispatch(P.Information(dsap, ssap, 0, 0, b'?'))
 
     def close(self):
+        for key, (t, dest) in self.pending.items():
+            self.socks[key].close()
+            t.join(2)
         if self.threads:
             self.llc.sap[1].shutdown()
             for t in self.threads:
@@ -373,9 +504,27 @@ def run_scenario(ck, sc, lines, expect, maxframes=8):
     """runs the script on real code; a ['collect'] operation and the end of the script call collect() (at the end
     until nothing is left, at most maxframes times); every call is one model line.
     sc = dict(miu, agf, script, family)"""
-    miu, agf = sc['miu'], sc['agf']
-    snd = Sender(miu, agf)
+    agf = sc['agf']
+    snd = Sender(sc)
+    miu = snd.miu            # the link MIU the code works with (model input)
+    lim = snd.true_miu       # the link MIU the peer announced (monitor)
     frame_no = [0]
+    if miu != lim:
+        ck.violation('link-miu-learnt-wrong', 'activate() took over send-miu %d from general bytes that announce MIU %d '
+                     '(MIUX TLV value %04Xh)' % (miu, lim, last_miux(bytes.fromhex(sc['gb'][1])) or 0), {'scenario': sc})
+
+    def flush_learn():
+        for line, exp in snd.learn:
+            lines.append(line)
+            expect.append((exp, 'learn', sc, None))
+            ck.count('learn-' + line.split()[0])
+        del snd.learn[:]
+        for how, v, got, true in snd.conn_learnt:
+            ck.case(('conn', how, v, lim), True)
+            if got != true:
+                ck.violation('conn-miu-learnt-wrong:' + how, '%s with MIUX TLV value %04Xh on a link with MIU %d gave socket send MIU '
+                             '%d, the peer announced %d' % (how, v or 0, lim, got, true), {'scenario': sc})
+        del snd.conn_learnt[:]
 
     def flush_sends():
         for line, exp, n, r, lim in snd.sendlog:
@@ -427,21 +576,21 @@ def run_scenario(ck, sc, lines, expect, maxframes=8):
         # ---------------- monitor
         if not snd.raw_used:
             names = '+'.join(PTNAME.get(x[0], str(x[0])) for x in subs[:3]) + ('+..' if len(subs) > 3 else '')
-            if info > miu:
+            if info > lim:
                 kind = 'agf' if top[0] == 2 else PTNAME.get(top[0], str(top[0]))
                 ck.violation('frame-exceeds-miu:' + kind,
                              'collect() returned a %s frame (%s) whose information field of %d bytes exceeds the '
-                             'remote Link MIU %d' % (kind, names, info, miu),
-                             {'scenario': sc, 'frame_index': k, 'info': info, 'miu': miu, 'frame': hexs(wire)})
+                             'remote Link MIU %d' % (kind, names, info, lim),
+                             {'scenario': sc, 'frame_index': k, 'info': info, 'miu': lim, 'frame': hexs(wire)[:400]})
             for pt, dsap, ssap, body in subs:
-                if pt == 3 and len(body) > miu:
-                    ck.violation('payload-exceeds-miu:UI', 'UI payload above the link MIU',
-                                 {'scenario': sc, 'len': len(body), 'miu': miu})
+                if pt == 3 and len(body) > lim:
+                    ck.violation('payload-exceeds-miu:UI', 'UI payload of %d bytes above the link MIU %d' % (len(body), lim),
+                                 {'scenario': sc, 'len': len(body), 'miu': lim})
                 if pt == 12:
-                    lim = snd.conn_miu.get((dsap, ssap))
-                    if lim is None or len(body) > lim:
-                        ck.violation('payload-exceeds-miu:I', 'I payload above the MIU announced for the connection',
-                                     {'scenario': sc, 'len': len(body), 'limit': lim})
+                    climit = snd.conn_miu.get((dsap, ssap))
+                    if climit is None or len(body) > climit:
+                        ck.violation('payload-exceeds-miu:I', 'I payload of %d bytes above the MIU %s announced for the connection'
+                                     % (len(body), climit), {'scenario': sc, 'len': len(body), 'limit': climit})
         # ---------------- receiver
         got = deliver(wire)
         sent = list(f) if f.name == 'AGF' else [f]
@@ -455,6 +604,7 @@ def run_scenario(ck, sc, lines, expect, maxframes=8):
         return True
 
     try:
+        flush_learn()
         if any(op[0] == 'resolve_thread' for op in sc['script']):
             import random as _r
             L.random = _r.Random(sc['miu'] * 7 + len(sc['script']))
@@ -464,6 +614,7 @@ def run_scenario(ck, sc, lines, expect, maxframes=8):
             else:
                 snd.run([op])
                 flush_sends()
+                flush_learn()
         for _ in range(maxframes):
             if not step():
                 break
@@ -638,6 +789,13 @@ def gen_threaded(rng):
 
 
 CORPUS = [
+    # limits learnt from the peer (general bytes 02 02 08 78 = MIU 248 with reserved bit 11; CC with MIUX 0800h = MIU 128)
+    dict(family='corpus', miu=None, gb=['I', '01011302020878'], agf=False,
+         script=[['ldl', 'a', None], ['sendto', 'a', 248, 16, 1], ['sendto', 'a', 300, 16, 2]]),
+    dict(family='corpus', miu=None, gb=['I', '010113020207ff'], agf=False,
+         script=[['connect_start', 'c', 32, 16], ['collect'], ['cc', 'c', 0x800, 1], ['send', 'c', 128, 1], ['send', 'c', 200, 2]]),
+    dict(family='corpus', miu=None, gb=['T', '010113020207ff'], agf=True,
+         script=[['listen', 'l', None, 2, 128], ['accept_raw', 'l', 'c', 9, 0x800, 1], ['send', 'c', 128, 1], ['send', 'c', 200, 2]]),
     # minimised past failures (DESIGN section 12 row 13)
     dict(family='corpus', miu=130, agf=False,
          script=[['snlreq', [[i, ('urn:nfc:sn:x%02d' % i).encode().hex()] for i in range(40)]]]),
@@ -678,6 +836,73 @@ def sweep_first_unsized(miu, d, what):
     return dict(family='sweep-first+unsized', miu=miu, agf=True, script=script)
 
 
+RESERVED = [r << 11 for r in range(32)]          # every combination of the reserved bits 11..15 of a MIUX value
+
+
+def gb_tlvs(rng, v):
+    """general bytes after 'Ffm': VERSION, [MIUX], now and then WKS / LTO / OPT around it"""
+    t = [bytes.fromhex('010113')]
+    if rng.random() < 0.3:
+        t.append(bytes.fromhex('03020003'))
+    t.append(miux_tlv(v))
+    if rng.random() < 0.3:
+        t.append(bytes.fromhex('040132'))
+    if rng.random() < 0.3:
+        t.append(bytes.fromhex('070103'))
+    return b''.join(t).hex()
+
+
+def learnt_link(rng, v, agf):
+    """the link MIU comes from activate(); queue UI PDUs at and above the TRUE limit 128 + (v & 0x7FF)"""
+    true = 128 if v is None else 128 + (v & 0x7FF)
+    script = [['ldl', 'a', None], ['sendto', 'a', true, 16, 1], ['sendto', 'a', true + 1, 17, 2],
+              ['sendto', 'a', true + rng.choice([2, 100, 2048]), 18, 3], ['sendto', 'a', max(0, true - rng.randrange(1, 9)), 19, 4],
+              ['sendto', 'a', rng.randrange(0, 5), 20, 5]]
+    if rng.random() < 0.5:
+        script.append(['snlreq', [[i % 256, b'urn:nfc:sn:q'.hex()] for i in range(true // 4 + 2)]])
+    return dict(family='learnt-link', miu=None, gb=[rng.choice('IT'), gb_tlvs(rng, v)], agf=agf, script=script)
+
+
+def learnt_conn(rng, v, how, link_v, agf):
+    """the connection MIU comes from a CONNECT / CC with a MIUX TLV; queue I PDUs at and above the TRUE limit"""
+    true = 128 if v is None else 128 + (v & 0x7FF)
+    link = 128 if link_v is None else 128 + (link_v & 0x7FF)
+    lim = min(true, link)
+    rw = rng.choice([1, 1, 4, 15])
+    if how == 'CONNECT':
+        script = [['listen', 'l', rng.choice([None, 'urn:nfc:sn:svc']), 2, 128], ['accept_raw', 'l', 'c', 9, v, rw]]
+    else:
+        script = [['connect_start', 'c', 33, 17], ['collect'], ['cc', 'c', v, rw]]
+    script += [['send', 'c', lim, 1], ['send', 'c', lim + 1, 2], ['send', 'c', true + 1, 3],
+               ['send', 'c', lim + rng.choice([2, 50, 2048]), 4], ['send', 'c', max(0, lim - rng.randrange(1, 9)), 5]]
+    if rng.random() < 0.4:
+        script += [['ldl', 'u', None], ['sendto', 'u', rng.randrange(0, 30), 16, 9]]
+    return dict(family='learnt-conn-' + how, miu=None, gb=[rng.choice('IT'), gb_tlvs(rng, link_v)], agf=agf, script=script)
+
+
+def learnt(ck):
+    """limits LEARNT from the peer: MIUX values 0..7FFh at the boundaries, each reserved bit 11..15 alone and in
+    every combination, absent TLV; in general bytes (activate), CONNECT and CC"""
+    rng, quick = ck.rng, ck.tier == 'quick'
+    lows = [0, 1, 0x78, 0x7FE, 0x7FF]
+    yield learnt_link(rng, None, True)
+    yield learnt_conn(rng, None, 'CONNECT', 0x7FF, False)
+    yield learnt_conn(rng, None, 'CC', 0x7FF, True)
+    for res in RESERVED:
+        for low in (lows if not quick else [0, 0x78, 0x7FF, rng.randrange(0, 0x800)]):
+            v = res | low
+            yield learnt_link(rng, v, rng.random() < 0.5)
+            yield learnt_conn(rng, v, 'CONNECT', rng.choice([0x7FF, 0x7FF, 0x78, res | 0x7FF, res | 0x100]), rng.random() < 0.5)
+            yield learnt_conn(rng, v, 'CC', rng.choice([0x7FF, 0x7FF, 0x78, res | 0x7FF, res | 0x100]), rng.random() < 0.5)
+    for _ in range(40 if quick else 3000):
+        v = rng.choice(RESERVED) | rng.randrange(0, 0x800)
+        k = rng.randrange(3)
+        if k == 0:
+            yield learnt_link(rng, v, rng.random() < 0.5)
+        else:
+            yield learnt_conn(rng, v, ('CONNECT', 'CC')[k - 1], rng.choice(RESERVED) | rng.randrange(0, 0x800), rng.random() < 0.5)
+
+
 def interleave(rng, sc):
     """now and then call collect() in the middle of the script"""
     if rng.random() < 0.3 and len(sc['script']) > 2:
@@ -691,6 +916,8 @@ def interleave(rng, sc):
 def scenarios(ck):
     rng, quick = ck.rng, ck.tier == 'quick'
     for sc in CORPUS:
+        yield sc
+    for sc in learnt(ck):
         yield sc
     # every MIU (not only multiples of 4): quick 128..639, thorough 128..2175
     top = 640 if quick else 2176
